@@ -18,6 +18,7 @@ pub struct Sauce {
     pub data_type: u8,
     pub file_type: u8,
     pub tinfo1: u16,
+    #[allow(dead_code)]
     pub tinfo2: u16,
     pub flags: u8,
 }
